@@ -57,6 +57,9 @@ class TlcResult:
                     recs.append(json.loads(json.loads(ln)))
                 except ValueError as e:  # interleaved output
                     raise MachineryError(f"unparsable TLC record: {ln[:200]!r}: {e}")
+        # TLC's workers print in a nondeterministic order: every stride / index-based choice downstream
+        # must see the same sequence on every run
+        recs.sort(key=lambda r: json.dumps(r, sort_keys=True))
         return recs
 
     def coverage_zero_actions(self):
